@@ -1,3 +1,4 @@
+import XalanModel.Generated.C02_Recycle
 import XalanModel.C02.CompileProofs
 import XalanModel.C02.CompileWhole
 import XalanModel.C02.CompareProofs
@@ -246,5 +247,22 @@ theorem axes_spec_sample_partial :
 
 /-- non-vacuity of `axes_spec_descendant_partial`: the sample document is well-formed -/
 example : axesSampleDoc.WF := Doc.wf_of_wfB _ (by decide)
+
+/-! ## Recycled XObjects forget their memoised conversions
+
+`number()`, `string()` and `boolean()` are functions of the value (XPath §4); `XObjectFactoryDefault` reuses released
+`XString` / `XNumber` / `XNodeSet` objects, so every `mutable m_cached*` member must be reset on the recycle path.  The table is
+regenerated from the source by `translate/c02_recycle.py`. -/
+
+/-- **Recycling contract**: every memoised member of a recyclable XObject is reset to the sentinel its reader tests for, by a
+statement at the top level of the reset function (not under any condition), and the factory's recycle branch reaches that
+function through unconditional calls (`create*` → `set()` → `release()` → reset).  A partial or conditional clear, a dropped
+call, or a new memoised member without a reset makes this fail. -/
+theorem recycle_contract :
+    ∀ e ∈ recycleTable, e.resetUnconditional = true ∧ e.reachedFromFactory = true ∧ e.sentinelMatches = true := by
+  decide
+
+/-- the table is not empty: the four memoised members of XNodeSetBase, XStringBase and XNumber are in it -/
+example : 4 ≤ recycleTable.length := by decide
 
 end XalanModel.Props.C02
